@@ -140,6 +140,11 @@ def run(ctx):
         lim = H.DEFAULT_LIM if rng.random() < 0.7 else rng.choice(H.SMALL_LIMS[:3] + H.SMALL_LIMS[4:])
         items.append((s, lim))
         classes.append(cls)
+    # systematic: every single insertion / deletion / line duplication in a few base streams
+    for bi, base in enumerate(H.SYSTEMATIC_BASES):
+        for mstream in H.systematic_mutants(base, rng, 0.34 if ctx.quick else 1.0):
+            items.append((mstream, H.DEFAULT_LIM))
+            classes.append(f"systematic{bi}")
     specs = spec_run_many(exe, items)
     model = H.model_run_many(exe, [([s], lim) for s, lim in items])
     ran = 0
